@@ -470,7 +470,9 @@ class C20(Prop):
                     yield Case({"op": "bf_to_unsigned", "value": bad, "width": 0}, "valid", tag="helper-w0")
                     yield Case({"op": "bf_to_signed", "value": bad, "width": 0}, "valid", tag="helper-w0")
         for bw in BAD_WIDTHS:
-            for v in (0, 1, 255, rng.getrandbits(16), -1):
+            # absurdly large widths are tried with one value only: if such a width is not refused up front the
+            # call allocates gigabytes and takes a minute, and one witness is enough
+            for v in ((1,) if abs(bw) > 1 << 20 else (0, 1, 255, rng.getrandbits(16), -1)):
                 yield Case({"op": "bf_new", "value": v, "width": bw}, "invalid", errclass=True, tag="bad-width")
                 yield Case({"op": "bf_gen_int", "value": v, "width": bw}, "invalid", errclass=True, tag="bad-width")
                 yield Case({"op": "bf_to_unsigned", "value": v, "width": bw}, "invalid", errclass=True, tag="bad-width")
